@@ -274,6 +274,8 @@ def main(tier, seed):
         cases.append({"tree": st, "fmts": ["c4", "c4", "md5"]})
         for sp in ("slash", "slashdot", "dot", "rel", "symlink", "dotdot", "slashslash"):   # the root folder as a user may spell it
             cases.append({"tree": st, "fmts": ["md5", "xxh64"], "spell": sp})
+            if st is SPECIAL_TREES[0] or tier != "quick":   # ... and as a later generation (the ascmhl folder exists already)
+                cases.append({"tree": st, "fmts": ["md5", "xxh64"], "spell": sp, "prior": ["xxh64"]})
         for fs in ([["md5"], ["c4"], list(ref.FORMATS_CLI)]):
             cases.append({"tree": st, "fmts": fs, "meta": len(fs) == 1})
             cases.append({"tree": st, "fmts": fs, "order": "reversed"})
